@@ -128,8 +128,8 @@ Proof.
   pose proof (range_width f ltac:(lia)) as Hrw. assert (0 < 2^(nw f)) by (apply pow2_pos; lia).
   unfold elem_pipe. cbn [negb scale_elem bind round_elem np_round].
   rewrite round_dy_int by lia. rewrite Z.pow_0_r, Z.mul_1_r.
-  assert (Hgt: elem_gt (NF (Fin z 0)) (cmax f) = (cmax f <? z)) by (unfold elem_gt; rewrite f64_of_Z_exact by exact Hcx; apply f64_ltb_int).
-  assert (Hlt: elem_lt (NF (Fin z 0)) (cmin f) = (z <? cmin f)) by (unfold elem_lt; rewrite f64_of_Z_exact by exact Hcn; apply f64_ltb_int).
+  assert (Hgt: elem_gt (NF (Fin z 0)) (cmax f) = (cmax f <? z)) by (unfold elem_gt; apply f64_ltb_int).
+  assert (Hlt: elem_lt (NF (Fin z 0)) (cmin f) = (z <? cmin f)) by (unfold elem_lt; apply f64_ltb_int).
   assert (Ho: overflow_elem f o false (NF (Fin z 0)) = Ok (overflow o f z)).
   { unfold overflow_elem. rewrite Hgt, Hlt. replace (64 <=? nw f) with false by lia. cbn [orb elem_to_code].
     rewrite astype_int by lia. cbn [of_option bind]. destruct o; cbn [overflow].
